@@ -440,6 +440,34 @@ class MediaWorld(MediaBase):
         await pair.connect()
         if any(pair.dtls[n].state != "connected" for n in "SR"):
             raise AssertionError("transport pair failed to connect: %r" % {n: pair.dtls[n].state for n in "SR"})
+        # (observation only) what the receiver's SRTP session rejects, per source: a source whose first packet to arrive
+        # was sent after that source's sequence number had wrapped cannot be followed by any SRTP receiver (RFC 3711:
+        # the rollover counter is not on the wire) - the origin-independence pairs need to tell that case apart
+        world = self
+
+        class SrtpWatch:
+            def __init__(self, inner):
+                self.inner = inner
+
+            def unprotect(self, data):
+                ssrc = int.from_bytes(data[8:12], "big") if len(data) >= 12 else None
+                try:
+                    out = self.inner.unprotect(data)
+                except Exception:
+                    world.probes["srtp_unprotect_failed"] += 1
+                    if ssrc not in world.srtp_heard:
+                        world.srtp_unheard_fail.setdefault(ssrc, int.from_bytes(data[2:4], "big"))
+                    else:
+                        world.srtp_other_fail += 1
+                    raise
+                world.srtp_heard.add(ssrc)
+                return out
+
+            def __getattr__(self, name):
+                return getattr(self.inner, name)
+        self.srtp_heard, self.srtp_unheard_fail, self.srtp_other_fail = set(), {}, 0
+        if pair.dtls["R"]._rx_srtp is not None:
+            pair.dtls["R"]._rx_srtp = SrtpWatch(pair.dtls["R"]._rx_srtp)
         if cfg.get("outage"):
             # the path from the sender is down for a while: longer than the sender's history lasts, so the receiver
             # ends up discarding what it held and asks for a key frame; what is lost *afterwards* is owed again
